@@ -126,6 +126,8 @@ func carrierShort(c string) string {
 		return "server-sniff"
 	case carHTTP:
 		return "base64"
+	case carHTTPGet:
+		return "http-get"
 	case carWSc2s, carWSs2c:
 		return "websocket"
 	}
@@ -378,8 +380,9 @@ func (rt *rtCtx) doJob(j rtJob) {
 		one(nil, true)
 	}
 	switch {
-	case j.carrier == carDirectServer:
-		// only the first 4 bytes are treated specially by the sniffing reader
+	case j.carrier == carDirectServer || j.carrier == carHTTPGet:
+		// only the first 4 bytes are treated specially by the sniffing reader (http-get-s2c: the boundary
+		// between the HTTP head and the stream, cut position 0)
 		if n <= 1000 {
 			singles(allPositions(w.lo, n))
 		} else {
